@@ -64,10 +64,12 @@ Definition copy (h : heap) (dst src : slice) : heap :=
   let n := Nat.min (len dst) (len src) in
   heap_write h (arr dst) (off dst) (firstn n (read h src)).
 
-(* slices.Concat(ss...): always a fresh array of exactly the total length *)
-Definition concat (h : heap) (ss : list slice) : heap * slice :=
+(* slices.Concat(ss...): always a fresh array (capacity newcap >= total length
+   from the runtime's size classes) *)
+Definition concat (h : heap) (ss : list slice) (newcap : nat) : heap * slice :=
   let bs := flat_map (read h) ss in
-  (h ++ [bs], mkSlice (length h) 0 (length bs) (length bs)).
+  let c := Nat.max newcap (length bs) in
+  (h ++ [bs ++ repeat 0%N (c - length bs)], mkSlice (length h) 0 (length bs) c).
 
 (* bytes.Clone(s): fresh array (capacity newcap >= len from the runtime) *)
 Definition clone (h : heap) (s : slice) (newcap : nat) : heap * slice :=
@@ -86,7 +88,7 @@ Inductive instr :=
 | ISet (v i : nat) (x : N)                (* v[i] = x *)
 | IAppend (v : nat) (xs : list N) (newcap : nat)   (* v_new := append(v, xs...) *)
 | ICopy (d s : nat)                       (* copy(d, s) *)
-| IConcat (vs : list nat)                 (* v_new := slices.Concat(vs...) *)
+| IConcat (vs : list nat) (newcap : nat)  (* v_new := slices.Concat(vs...) *)
 | IClone (v newcap : nat).                (* v_new := bytes.Clone(v) *)
 
 (* state: heap and the list of slice variables (index = variable number).
@@ -106,9 +108,9 @@ Definition exec (st : heap * list slice) (i : instr) : option (heap * list slice
   | ISet v i x => match var v with Some s => match set h s i x with Some h' => Some (h', vars) | None => None end | None => None end
   | IAppend v xs nc => match var v with Some s => let '(h', r) := append h s xs nc in Some (h', vars ++ [r]) | None => None end
   | ICopy d s => match var d, var s with Some ds, Some ss => Some (copy h ds ss, vars) | _, _ => None end
-  | IConcat vs =>
+  | IConcat vs nc =>
       match fold_right (fun v acc => match acc, var v with Some l, Some s => Some (s :: l) | _, _ => None end) (Some []) vs with
-      | Some ss => let '(h', r) := concat h ss in Some (h', vars ++ [r])
+      | Some ss => let '(h', r) := concat h ss nc in Some (h', vars ++ [r])
       | None => None
       end
   | IClone v nc => match var v with Some s => let '(h', r) := clone h s nc in Some (h', vars ++ [r]) | None => None end
